@@ -1299,3 +1299,28 @@ def canon_cmp(sym):
     if rel in (">", ">="):
         rel, a, b = _REL_SWAP[rel], b, a
     return (rel, strip(a), strip(b))
+
+
+def delegate_target(prog, f, depth=3):
+    """If f is a plain wrapper - no branches, and its result is the result of one crate function called with f's own
+    parameters in order (extra constant arguments allowed: a start depth, a default flag) - return that function (following
+    chains of wrappers); otherwise f itself. Lets rules anchor on a public name and analyse the body behind it."""
+    cur = f
+    for _ in range(depth):
+        if any(cur.term(b)[2] == "switch" for b in cur.normal_blocks()):
+            return cur
+        rs = returned_syms(cur)
+        if len(rs) != 1:
+            return cur
+        s = strip(rs[0][1])
+        if s[0] != "call":
+            return cur
+        cands = [g for g in prog.fns.values() if g.name == s[1]]
+        if len(cands) != 1 or cands[0].name == cur.name:
+            return cur
+        params = [strip(a)[1] for a in s[2] if strip(a)[0] == "param"]
+        others = [strip(a) for a in s[2] if strip(a)[0] != "param"]
+        if params != list(range(1, cur.argc + 1)) or any(o[0] != "const" for o in others):
+            return cur
+        cur = cands[0]
+    return cur
